@@ -674,17 +674,40 @@ Qed.
    variable bound to one type across all positions; the requested output is accepted by the
    output pattern; the output pattern resolves under the bindings; nothing the caller
    supplied (initial resolution) was changed. *)
+(* normalize_call: the normalised list is the supplied arguments followed by the defaults of
+   the omitted trailing parameters, one per declared parameter; defaults_used counts them *)
+Lemma normalize_spec defs : forall al nargs k,
+  normalize defs al = Some (nargs, k) ->
+  exists suffix, nargs = al ++ suffix /\ k = Z.of_nat (length suffix) /\ length nargs = length defs /\
+                 Forall (fun a => In (Some a) defs) suffix.
+Proof.
+  induction defs as [|d ds IH]; intros [|a al] nargs k; cbn [normalize]; try discriminate.
+  - intros H; inversion H; subst. exists []. cbn. auto.
+  - destruct d as [a|]; [|discriminate]. destruct (normalize ds []) as [[l k0]|] eqn:E; [|discriminate].
+    intros H; inversion H; subst. destruct (IH _ _ _ E) as [suf [E1 [E2 [E3 E4]]]]. cbn [app] in E1. subst l.
+    exists (a :: suf). cbn [app length]. split; auto. split; [lia|]. split; [lia|].
+    constructor; [left; auto|]. eapply Forall_impl; [|exact E4]. intros x Hx. right; auto.
+  - destruct (normalize ds al) as [[l k0]|] eqn:E; [|discriminate].
+    intros H; inversion H; subst. destruct (IH _ _ _ E) as [suf [E1 [E2 [E3 E4]]]]. subst l.
+    exists suf. cbn [app length]. split; auto. split; auto. split; [lia|].
+    eapply Forall_impl; [|exact E4]. intros x Hx. right; auto.
+Qed.
+
 Theorem try_match_sound_lemma : forall c q m k,
   try_match c q = TMOk m k ->
+  exists nargs dused,
+  normalize (c_defaults c) (q_args q) = Some (nargs, dused) /\
   extends (q_init q) m /\
-  Forall2 (arg_inst m) (c_params c) (q_args q) /\
+  Forall2 (arg_inst m) (c_params c) nargs /\
   (c_has_out c = true -> exists t, tresolve (c_out c) m = Some t) /\
   (c_has_out c = true -> forall e, q_expected q = Some e -> oinst m (c_out c) e = true) /\
   (forall b, q_outreq q = Some b -> c_has_out c = b) /\
-  c_rank c <= k <= c_rank c + Z.of_nat (length (c_params c)).
+  c_rank c + dused <= k <= c_rank c + dused + Z.of_nat (length (c_params c)).
 Proof.
   intros c q m k. unfold try_match.
-  destruct (negb (length (c_params c) =? length (q_args q))%nat); [discriminate|].
+  destruct (normalize (c_defaults c) (q_args q)) as [[nargs dused]|] eqn:EN; [|discriminate].
+  exists nargs, dused. split; auto. revert H. clear EN.
+  destruct (negb (length (c_params c) =? length nargs)%nat); [discriminate|].
   destruct (match q_hints q with [] => Some (q_init q) | _ :: _ => bind_hints (size_vars c) (q_hints q) (q_init q) end)
     as [m0|] eqn:E0; [|discriminate].
   assert (extends (q_init q) m0) as X0.
@@ -692,7 +715,7 @@ Proof.
   destruct (match q_outreq q with Some b => negb (Bool.eqb (c_has_out c) b) | None => false end) eqn:EO; [discriminate|].
   destruct (match q_expected q with Some t => if c_has_out c then omatch (c_out c) t m0 else Some m0 | None => Some m0 end)
     as [m1|] eqn:E1; [|discriminate].
-  destruct (match_args (c_params c) (q_args q) (m1, 0)) as [[m2 adj]|] eqn:E2; [|discriminate].
+  destruct (match_args (c_params c) nargs (m1, dused)) as [[m2 adj]|] eqn:E2; [|discriminate].
   destruct (match_args_sound _ _ _ _ _ _ E2) as [X2 [G2 A2]].
   assert (extends m0 m1 /\ (c_has_out c = true -> forall e, q_expected q = Some e -> oinst m1 (c_out c) e = true)) as [X1 G1].
   { destruct (q_expected q) as [e|].
@@ -720,6 +743,6 @@ Theorem output_is_substitution_lemma : forall cs q s,
   exists t, output_of s = Some t /\ tresolve (c_out (s_cand s)) (s_map s) = Some t.
 Proof.
   intros cs q s H HO. destruct (resolve_sel_in _ _ _ H) as [_ HT].
-  destruct (try_match_sound_lemma _ _ _ _ HT) as [_ [_ [HR _]]].
+  destruct (try_match_sound_lemma _ _ _ _ HT) as [nargs [dused [_ [_ [_ [HR _]]]]]].
   destruct (HR HO) as [t Ht]. exists t. unfold output_of. rewrite HO. auto.
 Qed.
